@@ -254,7 +254,7 @@ Definition wf_sig (s : tsig) : bool :=
 (** outside F-C09b: every name keeps something once underscores are gone *)
 Definition all_have_core (s : tsig) : bool := forallb (fun p => has_core (p_name p)) (s_params s).
 
-(** outside F-C09c: no underscored name whose dashed form is a single
+(** historical (F-C09c, fixed by d208a4d; no longer part of any guard): no underscored name whose dashed form is a single
     character (the only names an earlier auto short flag can take away) *)
 Definition no_steal (s : tsig) : bool :=
   negb (d_auto_short (s_deco s)) ||
@@ -269,7 +269,7 @@ Definition no_inverse_clash (s : tsig) : bool :=
 
 (** the proved region of the flagship theorem *)
 Definition guard (s : tsig) : bool :=
-  wf_sig s && all_have_core s && no_steal s && no_inverse_clash s.
+  wf_sig s && all_have_core s && no_inverse_clash s.
 
 (** explicit positional lists are judged in full only when they are
     duplicate-free lists of parameter names *)
